@@ -91,6 +91,10 @@ func c07PProf(cmd string, cs *c07Case, srcs, bases []string) *c07Proc {
 		lists:   map[string][]string{},
 		args:    srcs,
 	}
+	switch cs.Gran {
+	case "lines", "files", "addresses":
+		f.bools[cs.Gran] = true
+	}
 	if len(bases) > 0 {
 		if cs.Mode == "diff_base" {
 			f.lists["diff_base"] = bases
@@ -131,7 +135,7 @@ func c07GenMany(r *Rng, i int) *c07Case {
 			ti := c07TypeUniverse[tis[k]]
 			ts = append(ts, c07Type{ti.name, c07PickUnit(r, ti)})
 		}
-		p := c07Prof{Types: ts, Build: r.Intn(2)}
+		p := c07Prof{Types: ts, Build: r.Intn(2), IDs: r.Intn(3), Extra: r.Intn(7), Aslr: r.Intn(3)}
 		for k, n := 0, 1+r.Intn(2); k < n; k++ {
 			s := c07Sample{Stack: append([]int(nil), g.pool[r.Intn(len(g.pool))]...)}
 			for range ts {
@@ -245,7 +249,11 @@ func (run *c07Run) checkMany(cs *c07Case, dir string) bool {
 		c.Res.HarnessError = "C07 many: cannot write inputs"
 		return false
 	}
-	e := cs.expanded()
+	e, serr := run.semantic(cs.expanded())
+	if serr != nil {
+		c.Res.HarnessError = "C07 many: " + serr.Error()
+		return false
+	}
 	sig := func(s string) string { return "C07/many/" + cs.Mode + "/" + s }
 	what := fmt.Sprintf("%d sources, %d bases: ", len(srcF), len(baseF))
 
@@ -259,7 +267,7 @@ func (run *c07Run) checkMany(cs *c07Case, dir string) bool {
 		c.Violation(sig("proto-unparsable"), what+err.Error(), cs)
 		return nt
 	}
-	act, actBase, err := c07Abstract(outP)
+	act, actBase, err := run.abstract(outP)
 	if err != nil {
 		c.Violation(sig("proto-foreign-content"), what+err.Error(), cs)
 		return nt
@@ -302,7 +310,7 @@ func (run *c07Run) checkMany(cs *c07Case, dir string) bool {
 			if mult[k] == 0 {
 				continue
 			}
-			tp, rp := c07PProf("top", &c07Case{Index: cs.Index}, []string{f}, nil), c07PProf("traces", &c07Case{Index: cs.Index}, []string{f}, nil)
+			tp, rp := c07PProf("top", &c07Case{Index: cs.Index, Gran: cs.Gran}, []string{f}, nil), c07PProf("traces", &c07Case{Index: cs.Index, Gran: cs.Gran}, []string{f}, nil)
 			if tp.RC != 0 || rp.RC != 0 {
 				return false
 			}
